@@ -61,12 +61,12 @@ def sMsg : Msg → String
   | .sError k => s!"sERROR {k}"
 
 def sEv : Ev → String
-  | .start t => s!"start {sTag t}"
+  | .start _ t => s!"start {sTag t}"
   | .spawn t k m => s!"spawn {sTag t} {k} {m}"
   | .saw t k v => s!"saw {sTag t} {k} {sVal v}"
   | .cancel t k => s!"cancel {sTag t} {k}"
   | .raise t => s!"raise {sTag t}"
-  | .ret t v => s!"ret {sTag t} {sVal v}"
+  | .ret _ t v => s!"ret {sTag t} {sVal v}"
 
 def sBool (b : Bool) : String := if b then "1" else "0"
 
